@@ -7,6 +7,7 @@ reconstruction invariant of the property text - it shares nothing with the imple
 
 import itertools
 import os
+import signal
 
 from ..common import HarnessError, load_impl, show
 from ..engine.shard import Acc, Family, split
@@ -31,11 +32,31 @@ ASSUMPTIONS = [
     'an array element is one line whatever it contains; for an element that contains LF the reading "text part that contributes its own lines" is accepted as well',
     'a prelude only makes documented library calls; if one does not complete that is a harness error, not a verdict',
     'blocks may carry extra keys; only type and lines are inspected',
-    'horizon maxStatements = 100000 per call (a call needs < 1000 statements within the bounds)',
+    'horizon maxStatements = 100000 per call (a call needs < 1000 statements within the bounds); a 10 s wall-clock guard per call (a call needs < 1 ms) and a stop after 5 calls of a shard that did not complete keep a runaway change from hanging the run',
 ]
 
 HORIZON = 100000
-STOP_AFTER_NOT_COMPLETED = 20
+STOP_AFTER_NOT_COMPLETED = 5
+WALL_GUARD_S = 10.0     # a call needs < 1 ms; the statement horizon does not bound time when values grow without bound
+
+
+class WallClockGuard(BaseException):
+    """Raised by the interval timer inside a call that runs for more than WALL_GUARD_S seconds."""
+
+
+def _on_alarm(signum, frame):
+    raise WallClockGuard()
+
+
+def guarded(func, *args):
+    """Run func under the wall-clock guard (repeating timer: a first exception swallowed somewhere is raised again)."""
+    old = signal.signal(signal.SIGALRM, _on_alarm)
+    signal.setitimer(signal.ITIMER_REAL, WALL_GUARD_S, 1.0)
+    try:
+        return func(*args)
+    finally:
+        signal.setitimer(signal.ITIMER_REAL, 0)
+        signal.signal(signal.SIGALRM, old)
 FORMS = ['array', 'lf', 'crlf', 'mixed']
 TYPES = ('Identical', 'Add', 'Remove')
 _W = {}
@@ -184,8 +205,8 @@ def run_prelude(name, left, right):
             st['preludes'] = {k: bs.parse_script(v) for k, v in PRELUDES.items()}
         glob['vLeft'] = left
         glob['vRight'] = right
-        bs.execute_script(st['preludes'][name], _options(bs_bare, glob))
-    except Exception as exc:  # pylint: disable=broad-exception-caught
+        guarded(bs.execute_script, st['preludes'][name], _options(bs_bare, glob))
+    except (Exception, WallClockGuard) as exc:  # pylint: disable=broad-exception-caught
         raise HarnessError(f'prelude {name} did not complete: {type(exc).__name__} {str(exc)[:200]}') from exc
 
 
@@ -232,7 +253,9 @@ def run_diff(left, right, mode):
     glob['vRight'] = right
     opts = _options(bs_bare, glob)
     try:
-        res = bs.execute_script(script, opts)
+        res = guarded(bs.execute_script, script, opts)
+    except WallClockGuard:
+        return ('raise', 'WallClockGuard', f'the call was still running after {WALL_GUARD_S} s')
     except Exception as exc:  # pylint: disable=broad-exception-caught
         return ('raise', type(exc).__name__, str(exc)[:200])
     return ('ok', res, opts.get('statementCount'))
